@@ -1,7 +1,9 @@
 (* MV.C05.Properties — property C05 ("termination is hierarchical and complete; shutdown waits for everyone")
    on the kernel model. The full statements are FALSE of the faithful model (and of the code) for two standing
-   findings, proved here as _refuted with concrete witnesses; the clause-level lemmas that do hold are being added. *)
-From MV Require Import Lib.ListX Kernel.Model Kernel.Run Kernel.Lifecycle.
+   findings, proved here as _refuted with concrete witnesses. What does hold universally is proved as _partial:
+   the hierarchy invariant for every role table that does not spawn from inside an actor's own OnTerminated handler
+   (exactly the behaviour of the second finding) and does not claim a system address. *)
+From MV Require Import Lib.ListX Kernel.Model Kernel.Run Kernel.Lifecycle Kernel.Hierarchy.
 Open Scope Z_scope.
 
 Definition quiescent (s : kstate) : Prop := forall a, In a (actors s) -> a_inflight a = None.
@@ -38,6 +40,51 @@ Proof.
   eexists. eexists. split; [vm_compute; reflexivity|]. split; [vm_compute; reflexivity|]. vm_compute. discriminate.
 Qed.
 Print Assumptions C05_registry_empty_after_shutdown_refuted.
+
+(* HIERARCHY (partial: two hypotheses on the scripts, both necessary — see the refuted theorem above for the first).
+   For every role table whose scripts spawn only under non-negative (user) addresses and never from a rule triggered
+   by the actor's own OnTerminated, and every label sequence whose external spawns use non-negative addresses — i.e.
+   all interleavings of sends, spawns, terminations (graceful or not, of any node, several at once), failures,
+   restarts, watch requests and shutdown — in every reachable state: an actor object that is still registered (it
+   has not finished terminating: an actor is unregistered in the very step in which it handles its own OnTerminated)
+   has a parent that is still registered and still lists it among its children. (Top-level actors created after the
+   guard itself has terminated are the only exception: the guard is gone and they are nobody's children.)
+   An actor marks itself terminated only while its children table is empty (try_terminated) and an entry leaves that
+   table only when the child's termination notice arrives while nobody is registered under the child's address
+   (drop_child): hence no actor finishes terminating before any of its descendants, at any depth. *)
+Theorem C05_hierarchical_partial : forall roles ls s os,
+  (forall ro ru t r, In ro roles -> In ru (rules ro) -> In (ASpawn t r) (r_do ru) -> 0 <= t /\ r_on ru <> KTS) ->
+  Forall lab_ok ls -> krun roles kinit ls = Some (s, os) ->
+  forall c ac, get s c = Some ac -> lookup (a_tok ac) (registry s) = Some c -> a_parent ac <> rNone ->
+    (a_parent ac = rGuard /\ lookup rGuard (registry s) = None) \/
+    exists pu pa, lookup (a_parent ac) (registry s) = Some pu /\ get s pu = Some pa /\ In (a_tok ac) (a_children pa).
+Proof. exact hierarchical. Qed.
+Print Assumptions C05_hierarchical_partial.
+
+(* consequence: once nobody is registered under a (non-guard) address p any more — its holder has finished
+   terminating — no registered actor has p as its parent: all children finished before *)
+Theorem C05_no_registered_child_of_unregistered_parent_partial : forall roles ls s os,
+  (forall ro ru t r, In ro roles -> In ru (rules ro) -> In (ASpawn t r) (r_do ru) -> 0 <= t /\ r_on ru <> KTS) ->
+  Forall lab_ok ls -> krun roles kinit ls = Some (s, os) ->
+  forall c ac, get s c = Some ac -> lookup (a_tok ac) (registry s) = Some c -> a_parent ac <> rNone ->
+    lookup (a_parent ac) (registry s) = None -> a_parent ac = rGuard.
+Proof.
+  intros roles ls s os Hsp Hl Hrun c ac Hc Hreg Hp Hnone.
+  destruct (hierarchical roles ls s os Hsp Hl Hrun c ac Hc Hreg Hp) as [[E _]|(pu & pa & Hlk & _)]; [exact E|congruence].
+Qed.
+Print Assumptions C05_no_registered_child_of_unregistered_parent_partial.
+
+(* the hypotheses are satisfiable by a table that does spawn, terminate and shut down (used in C05_example below) *)
+Example C05_hierarchy_hypotheses_example :
+  (forall ro ru t r, In ro [ {| victim := None; sup := [DStop]; rules := [ {| r_on := KL; r_n := -1; r_inst := -1; r_do := [ASpawn 1 1] |} ] |};
+                            {| victim := None; sup := []; rules := [] |} ] ->
+     In ru (rules ro) -> In (ASpawn t r) (r_do ru) -> 0 <= t /\ r_on ru <> KTS) /\
+  Forall lab_ok [LSpawn 0 0; LTell 1 5; LShutdown true; LEnd].
+Proof.
+  split.
+  - intros ro ru t r [<-|[<-|[]]] Hru Hact; cbn in Hru; [|destruct Hru]. destruct Hru as [<-|[]]. cbn in Hact. destruct Hact as [E|[]]. inversion E; subst. split; [lia|discriminate].
+  - repeat constructor; cbn; lia.
+Qed.
 
 (* what does hold in the common case: a graceful shutdown of a two-level tree with a message in flight, driven by
    a deterministic scheduler to quiescence: the queued message is handled before OnTerminate, the child reports
